@@ -68,3 +68,42 @@ PROPS.update({
                 rule=LIFT_RULE + "70% well-formed files (dictionaries and bounds of every returned coordinate), 30% with one contig redeclared "
                      "with another size on one side. Non-trivial = all; distinct = distinct case lines."),
 })
+
+PROPS.update({
+    "C06": dict(props=["Props/C06.v"], profiles=["debug", "release"], gen=props2.gen_C06,
+                rule="byte streams: valid files with zero-length blocks (30%), 1-3 point mutations of valid files incl. numbers replaced by "
+                     "0/1/u64::MAX/u64::MAX+1/2^63 and inserted headers/blank lines (30%), contigs redeclared with another size (10%), "
+                     "grammar-random line sequences incl. invalid UTF-8 (15%), random bytes (15%); each is built and queried (boundary intervals, "
+                     "zero-length, 0..u64::MAX, both strands, unknown contigs) and drained through sections() past errors, lines() and raw reads; "
+                     "plus step-throughs of generated sections (adding up / off by k / overflowing / odd kinds) and single lines; debug and release "
+                     "profiles. Non-trivial = all; distinct = distinct case lines."),
+    "C17": dict(props=["Props/C17.v"], profiles=["debug"], gen=props2.gen_C17,
+                rule="files (valid, with inserted junk/blank lines, or random line sequences; LF or CRLF; with or without final newline) x random "
+                     "histories of 1-14 operations over {read_line_raw, read_line, lines().next(), sections().next() (continuing), drop iterator}; "
+                     "after every operation the harness records the bytes consumed from the underlying reader. Non-trivial = all; distinct = "
+                     "distinct case lines."),
+    "C18": dict(props=["Props/C18.v"], profiles=["debug", "release"], gen=props2.gen_C18, model_case=props2.c18_model_case, pre="c18_static",
+                rule="well-formed files x 30 intervals lifted sequentially, then concurrently from 2/4/8/16 scoped threads sharing &Machine (three "
+                     "rounds, rotated order per thread) and from a thread that received the machine in an Arc; compared with each other and with "
+                     "the model's sequential answers; plus the compile-time Send+Sync obligations, the crate compiled with unsafe_code forbidden "
+                     "and a token audit for interior mutability. Non-trivial = all; distinct = distinct case lines."),
+})
+
+PROPS.update({
+    "C08": dict(props=["Props/C08.v"], profiles=["debug"], gen=props2.gen_C08,
+                rule="well-formed files of up to 3 chains (40% with zero-length blocks, <= 1200 bytes) cut at every byte offset (quick: up to "
+                     "160 sampled offsets per file when longer), each compared with the machines of all whole-chain prefixes over a signature "
+                     "of up to 40 intervals (around every block, whole contigs); and for a random chunking of each file a hard failure and an "
+                     "Interrupted error injected at every fill_buf index, plus interrupts before every chunk. Non-trivial = all; distinct = "
+                     "distinct case lines."),
+    "C12": dict(props=["Props/C12.v"], profiles=["debug"], gen=props2.gen_C12,
+                rule="files (valid, with a junk line, or random line sequences split into sections) rendered with LF/CRLF x final newline or "
+                     "none, with 0-2 blank lines before and 1-3 after each section, and read through chunk schedules (1 byte at a time, two-piece "
+                     "splits, random compositions, the split between CR and LF); sections() and the built machine (6 intervals) compared across "
+                     "variants; raw reads checked for byte counts and texts. Non-trivial = all; distinct = distinct case lines."),
+    "C13": dict(props=["Props/C13.v"], profiles=["debug"], gen=props2.gen_C13,
+                rule="header lines (15% corrupted; 60% with non-canonical numbers: leading zeros, '+'; odd contig names incl. empty, 'chain', "
+                     "UTF-8, tabs), data lines (same), empty lines: parsed, printed, compared with the canonical spelling computed independently "
+                     "and re-parsed; whole files in a non-canonical spelling vs their canonical re-serialisation (sections and machine over 10 "
+                     "intervals). Non-trivial = accepted lines / files; distinct = distinct case lines."),
+})
